@@ -224,6 +224,16 @@ func RunHistory(rng *common.Rng, cfg Config) (*Run, error) {
 			}
 			return obs, nil
 		}
+		if o.RO && (o.Cmd == "store" || o.Cmd == "expunge" || o.Cmd == "copy" || o.Cmd == "move") {
+			// a change attempted in a read-only selection: refused, the mirror is fed as usual
+			if obs.Outcome != "ONo" {
+				fail("C02", "change in a read-only selection not refused: "+o.Cmd, strings.Join(obs.Raw, " / "))
+			}
+			if e := m.applyOut(obs.Out); e != "" {
+				fail("C01", "illegal response stream: "+stripNums(e), e+" | "+strings.Join(obs.Raw, " / "))
+			}
+			return obs, nil
+		}
 		if obs.Outcome != "OOk" && obs.Outcome != "OOkIssued" {
 			if o.Cmd != "done" && o.Cmd != "idle" {
 				fail("C01", "command refused: "+o.Cmd+" -> "+obs.Outcome, strings.Join(obs.Raw, " / "))
